@@ -538,6 +538,30 @@ def _disjuncts(c):
     return [c]
 
 
+def child_once_rule(ctx, key):
+    """a function that walks the expression tree through the generic child iterator visits every child once: a second recursive
+    call on a child next to that loop doubles the work per level (2^depth on a member chain)"""
+    ob = ctx.ob
+    obs = []
+    twice = []
+    n_walk = 0
+    for g in ctx.tc.fns:
+        if not g.body:
+            continue
+        loops = [n for n in sir.walk(g.body) if n.get("k") == "for" and re.search(r"\bsub_expressions(_mut)?\(\)", sir.expr_str(n["e"]).replace(" ", ""))
+                 and any(x.get("k") == "mcall" and x["m"] == g.name for x in sir.walk(n["body"]))]
+        if not loops:
+            continue
+        n_walk += 1
+        inside = set(id(x) for l_ in loops for x in sir.walk(l_))
+        extra = [x for x in sir.walk(g.body, into_closures=True) if x.get("k") == "mcall" and x["m"] == g.name and id(x) not in inside and sir.expr_str(x["recv"]) not in ("self",)]
+        if extra:
+            twice.append("%s calls itself on `%s` and again for every child" % (g.qual.split("::")[-1], sir.expr_str(extra[0]["recv"])[:30]))
+    obs.append(ob(key, False if twice else True if n_walk >= 2 else None, "parse/expr.rs", "; ".join(twice[:2]) if twice else "%d generic tree walks, each recursing only through the child iterator" % n_walk,
+                  witness=None if not twice else "<a wx:if=\"{{ a.b.c.d. .. (40 members) }}\"/> takes 2^40 steps to parse"))
+    return obs
+
+
 def for_wrap_rule(ctx):
     """`wrapped_element.unwrap()` in the wx:for wrapping of Element::parse: with a for-list present the branch classification can
     only be `None` or `If`, and those are exactly the arms of the wx:if wrapping that always hand an element on.  The
@@ -871,24 +895,7 @@ def side_conditions_rule(ctx):
                     dup.append("%s writes the generated text `%s` %d times in one fragment" % (g.name, b_, c_))
     obs.append(ob("C01.size/operand-once", False if dup else True if n_buf >= 2 else None, "proc_gen/expr.rs", "; ".join(dup[:2]) if dup else "%d operand buffers, none pasted twice into one fragment" % n_buf,
                   witness=None if not dup else "{{ a ?? b ?? c ?? .. }} with 40 operators generates 2^40 copies of `a`"))
-    # a function that walks the expression tree through the generic child iterator visits every child once: a second recursive
-    # call on a child next to that loop doubles the work per level (2^depth on a member chain)
-    twice = []
-    n_walk = 0
-    for g in ctx.tc.fns:
-        if not g.body:
-            continue
-        loops = [n for n in sir.walk(g.body) if n.get("k") == "for" and re.search(r"\bsub_expressions(_mut)?\(\)", sir.expr_str(n["e"]).replace(" ", ""))
-                 and any(x.get("k") == "mcall" and x["m"] == g.name for x in sir.walk(n["body"]))]
-        if not loops:
-            continue
-        n_walk += 1
-        inside = set(id(x) for l_ in loops for x in sir.walk(l_))
-        extra = [x for x in sir.walk(g.body, into_closures=True) if x.get("k") == "mcall" and x["m"] == g.name and id(x) not in inside and sir.expr_str(x["recv"]) not in ("self",)]
-        if extra:
-            twice.append("%s calls itself on `%s` and again for every child" % (g.qual.split("::")[-1], sir.expr_str(extra[0]["recv"])[:30]))
-    obs.append(ob("C01.size/child-once", False if twice else True if n_walk >= 2 else None, "parse/expr.rs", "; ".join(twice[:2]) if twice else "%d generic tree walks, each recursing only through the child iterator" % n_walk,
-                  witness=None if not twice else "<a wx:if=\"{{ a.b.c.d. .. (40 members) }}\"/> takes 2^40 steps to parse"))
+    obs += child_once_rule(ctx, "C01.size/child-once")
     from rules.c05 import check_mirror, slot_key_rule
     for x in check_mirror(ctx) + slot_key_rule(ctx):
         x = dict(x)
